@@ -216,6 +216,34 @@ def emit_family(gname, mandatory, optional, cells, aliases=None, containers=("Bo
                 w("    if !bad.is_empty() { return Err((\"cast:drop_count\".into(), format!(\"{}: payloads {:?} were not dropped exactly once\", what, bad))); }")
                 w("    Ok(digest(&(%d, made.get())))" % (1 if expect else 0))
                 w("}")
+    # requests that name one of their traits through a module path (`Oa + crate::Ob`): every listed trait counts
+    for en in subsets(optional):
+        ty = "%sImp%s" % (gname, "".join(en) or "None")
+        for req in subsets(optional):
+            if len(req) < 2 or "Box" not in containers or any(t in aliases for t in req):
+                continue
+            expect = all(r in en for r in req)
+            for pos in (0, len(req) - 1):
+                impl_list = " + ".join(("crate::" + t) if k == pos else t for k, t in enumerate(req))
+                for op in ("check", "cast"):
+                    fname = "cell_%s_%s_%s_box_%s_path%d" % (gname.lower(), "".join(en).lower() or "none", "".join(req).lower(), op, pos)
+                    cells.append((fname, gname, en, req, "Box", op + "_path", expect))
+                    w("pub fn %s() -> Result<u64, (String, String)> {" % fname)
+                    w("    let what = \"group %s built from a type enabling {%s}, %s!(.. impl %s)\";" % (gname, ",".join(en), op, impl_list))
+                    w("    let drops = DropScope::new();")
+                    w("    #[allow(unused_mut)] let mut g = group_obj!(%s::new(7) as %s);" % (ty, gname))
+                    if op == "check":
+                        w("    let ok = check!(g impl %s);" % impl_list)
+                        w("    drop(g);")
+                    else:
+                        w("    let r = cast!(g impl %s);" % impl_list)
+                        w("    let ok = r.is_some();")
+                        w("    drop(r);")
+                    w("    if ok != %s { return Err((\"cast:decision\".into(), format!(\"{}: returned {}, expected %s\", what, ok))); }" % (str(expect).lower(), str(expect).lower()))
+                    w("    let bad = drops.not_equal(1);")
+                    w("    if !bad.is_empty() { return Err((\"cast:drop_count\".into(), format!(\"{}: payloads {:?} were not dropped exactly once\", what, bad))); }")
+                    w("    Ok(digest(&(%d, %d)))" % (1 if expect else 0, pos))
+                    w("}")
     return "\n".join(out)
 
 
@@ -323,7 +351,72 @@ def write_if_changed(path, text):
             f.write(text)
 
 
-def family_crate(out_dir, crate, gname, mandatory_list, optional, aliases=None, containers=("Box", "Mut", "Ref"), fwd_of=None):
+SELFRET_SRC = r"""
+// ---- hand-written cells: methods that return Self (the built-in Clone and a user trait), called on cast results; the
+//      returned object is a complete member of the group again (upcast: every optional trait the type enabled is present)
+#[cglue_trait]
+pub trait Sm { fn sm(&self) -> u64; }
+#[cglue_trait]
+pub trait So { fn so(&self) -> u64; }
+#[cglue_trait]
+pub trait Sd { fn sd_dup(&self) -> Self; fn sd(&self) -> u64; }
+#[derive(Clone)]
+pub struct SImpAll { pub id: u64, pub dc: instr::DcHeap }
+#[derive(Clone)]
+pub struct SImpNoSo { pub id: u64, pub dc: instr::DcHeap }
+macro_rules! simp {
+    ($t:ident) => {
+        impl Sm for $t { fn sm(&self) -> u64 { self.id * 10 + 1 } }
+        impl So for $t { fn so(&self) -> u64 { self.id * 10 + 2 } }
+        impl Sd for $t { fn sd_dup(&self) -> Self { self.clone() } fn sd(&self) -> u64 { self.id * 10 + 3 } }
+    };
+}
+simp!(SImpAll);
+simp!(SImpNoSo);
+cglue_trait_group!(Gs, Sm, { Clone, So, Sd });
+cglue_impl_group!(SImpAll, Gs, { Clone, So, Sd });
+cglue_impl_group!(SImpNoSo, Gs, { Clone, Sd });
+
+macro_rules! selfret_cell {
+    ($fname:ident, $ty:ident, $has_so:expr, $what:expr, |$x:ident| $dup:expr, $($req:tt)+) => {
+        pub fn $fname() -> Result<u64, (String, String)> {
+            let what = $what;
+            let drops = DropScope::new();
+            {
+                let g = group_obj!($ty { id: 7, dc: instr::DcHeap::new(7) } as Gs);
+                let $x = match cast!(g impl $($req)+) { Some(x) => x, None => return Err(("cast:decision".into(), format!("{}: the cast failed although the trait is enabled", what))) };
+                let y = $dup;
+                let back = y.upcast();
+                if back.sm() != 71 { return Err(("cast:upcast_dispatch".into(), format!("{}: mandatory trait on the returned object reaches another instance", what))); }
+                if check!(back impl So) != $has_so { return Err(("cast:selfret_upcast".into(), format!("{}: after upcast of the returned object, check!(impl So) is not what the type enabled ({})", what, $has_so))); }
+                if !check!(back impl Sd) || !check!(back impl Clone) { return Err(("cast:selfret_upcast".into(), format!("{}: the returned object lost Sd / Clone after upcast", what))); }
+                if $has_so {
+                    match as_ref!(back impl So) { Some(v) => if v.so() != 72 { return Err(("cast:dispatch".into(), format!("{}: So on the returned object answers for another instance", what))); }, None => return Err(("cast:selfret_upcast".into(), format!("{}: as_ref!(impl So) fails on the returned object", what))) }
+                }
+                // the cast result itself is still complete
+                let back0 = $x.upcast();
+                if check!(back0 impl So) != $has_so || !check!(back0 impl Sd) { return Err(("cast:upcast".into(), format!("{}: the cast result lost optional traits on upcast", what))); }
+            }
+            let bad = drops.not_equal(1);
+            if !bad.is_empty() { return Err(("cast:drop_count".into(), format!("{}: payloads {:?} were not dropped exactly once", what, bad))); }
+            Ok(digest(&(drops.ids() as u64, $has_so)))
+        }
+    };
+}
+selfret_cell!(cell_gs_all_clone_selfret, SImpAll, true, "group Gs {Clone,So,Sd} from a type enabling all: cast!(impl Clone), clone() the result, upcast the clone", |x| x.clone(), Clone);
+selfret_cell!(cell_gs_all_dup_selfret, SImpAll, true, "group Gs {Clone,So,Sd} from a type enabling all: cast!(impl Sd), sd_dup() on the result, upcast the returned object", |x| x.sd_dup(), Sd);
+selfret_cell!(cell_gs_all_clonedup_selfret, SImpAll, true, "group Gs {Clone,So,Sd} from a type enabling all: cast!(impl Clone + Sd), sd_dup() on the result, upcast the returned object", |x| x.sd_dup(), Clone + Sd);
+selfret_cell!(cell_gs_noso_clone_selfret, SImpNoSo, false, "group Gs {Clone,So,Sd} from a type enabling {Clone,Sd}: cast!(impl Clone), clone() the result, upcast the clone", |x| x.clone(), Clone);
+selfret_cell!(cell_gs_noso_dup_selfret, SImpNoSo, false, "group Gs {Clone,So,Sd} from a type enabling {Clone,Sd}: cast!(impl Sd), sd_dup() on the result, upcast the returned object", |x| x.sd_dup(), Sd);
+"""
+SELFRET_CELLS = [("cell_gs_all_clone_selfret", "Gs", ["Clone", "So", "Sd"], ["Clone"], "Box", "selfret", True),
+                 ("cell_gs_all_dup_selfret", "Gs", ["Clone", "So", "Sd"], ["Sd"], "Box", "selfret", True),
+                 ("cell_gs_all_clonedup_selfret", "Gs", ["Clone", "So", "Sd"], ["Clone", "Sd"], "Box", "selfret", True),
+                 ("cell_gs_noso_clone_selfret", "Gs", ["Clone", "Sd"], ["Clone"], "Box", "selfret", True),
+                 ("cell_gs_noso_dup_selfret", "Gs", ["Clone", "Sd"], ["Sd"], "Box", "selfret", True)]
+
+
+def family_crate(out_dir, crate, gname, mandatory_list, optional, aliases=None, containers=("Box", "Mut", "Ref"), fwd_of=None, extra=None):
     cells, layouts = [], []
     mand = mandatory_list[0] if len(mandatory_list) == 1 else None
     parts = ["// @generated by gen/groups_gen.py — do not edit",
@@ -335,6 +428,9 @@ def family_crate(out_dir, crate, gname, mandatory_list, optional, aliases=None, 
         # several mandatory traits, declared out of name order (layout only; the cast cells use the first)
         parts.append(emit_family(gname, "{ %s }" % ", ".join(mandatory_list), optional, cells, aliases=aliases, containers=containers, mand_call=mandatory_list[0]))
     parts.append(emit_layout(gname, mandatory_list, optional, layouts, containers))
+    if extra:
+        parts.append(extra[0])
+        cells.extend(extra[1])
     reg = ["pub fn cells() -> Vec<Cell> {", "    vec!["]
     for (fname, g, en, req, cont, op, expect) in cells:
         reg.append("        Cell { name: \"%s\", group: \"%s\", enabled: \"%s\", requested: \"%s\", container: \"%s\", op: \"%s\", expect: %s, run: %s }," % (
@@ -361,7 +457,7 @@ def main():
         tot[1] += r[1]
     for n in range(1, 5):
         add(family_crate(out_dir, "hg_gn%d" % n, "Gn%d" % n, ["Gm"], OPT[:n]))
-    add(family_crate(out_dir, "hg_gopt", "Gopt", [], OPT[:2]))
+    add(family_crate(out_dir, "hg_gopt", "Gopt", [], OPT[:2], extra=(SELFRET_SRC, SELFRET_CELLS)))
     add(family_crate(out_dir, "hg_gali", "Gali", ["Gm"], ["TtUsize", "TtU64"], aliases={"TtUsize": "Tt<usize> = TtUsize", "TtU64": "Tt<u64> = TtU64"}))
     add(family_crate(out_dir, "hg_gmut", "Gmut", ["Hm"], MOPT, containers=("Box", "Mut")))
     # mandatory and optional traits declared out of name order
